@@ -31,6 +31,10 @@ class VGen:
         self.n += 1
         # a few letters of every part of the alphabet, in both cases, so that case folding is exercised on all of it
         tail = ["", "", "", "z", "Zq", "jk", "WX", "y"][self.n % 8]
+        if stem in ("Fb", "Struct", "Enum") and not self.prefix and "std-like-prefix" not in self.avoid and self.rng.random() < 0.08:
+            # user types named after what they wrap: CTU_Batch, TON_Delay ... (ordinary identifiers)
+            self.features.add("std-like-prefix")
+            return "%s%s%s%d" % (self.pick(["CTU_", "CTD_", "CTUD_", "TON_", "TP_", "SR_", "R_TRIG_"]), stem, tail, self.n)
         return "%s%s%s%d" % (self.prefix, stem, tail, self.n)
 
     def local(self, stem):
@@ -677,6 +681,12 @@ def plant_all(decls):
                 m = copy.deepcopy(decls)
                 m[i]["body"].insert(0, ["assign", first_target(d) if k != "function" else d["name"], "(%s + 1)" % fv[0]])
                 yield "P0015", "%s:%s:top:rhs-declared-elsewhere" % (k, pos), m, [fv[0]]
+            # ... and the name of another POU is not a variable either
+            pous = [x["name"] for j2, x in enumerate(decls) if j2 != i and x["k"] in ("fb", "program", "function")]
+            for pn in pous[:1] + pous[-1:]:
+                m = copy.deepcopy(decls)
+                m[i]["body"].insert(0, ["assign", first_target(d) if k != "function" else d["name"], pn])
+                yield "P0015", "%s:%s:top:rhs-named-like-a-pou" % (k, pos), m, [pn]
             if fi:
                 m = copy.deepcopy(decls)
                 m[i]["body"].insert(0, ["fbcall", fi[0], [], "?"])
